@@ -7,3 +7,12 @@ chk("C02",
     "replayed with mpmath + real library), NumPy's object loops, the np proxy substitutions listed in the evidence; real "
     "arithmetic (no rounding/NaN); numba kernels run as .py_func.",
     "symbolic execution of real code + SMT equivalence (z3/cvc5) against symbolic reference derivative", "DESIGN §3 C02, App. B")
+chk("C01",
+    "Programs are the enumerated input: every DAG over k<=3 leaves and n<=3 (thorough 4) binary +,* nodes with constant-flag "
+    "patterns, a 3-ary sequence-op variant, swapped operands and a second statement order, plus every well-typed straight-line "
+    "program of depth <=2 (thorough 3) over a 25-template alphabet of differentiable ops. Inside each program all data are "
+    "symbolic and z3 decides, for all real inputs, that each leaf's and each intermediate tensor's .grad equals d(sum L)/dx "
+    "from the reference differentiator (cut variables for intermediates); constants and tensors L does not depend on must have grad None.",
+    "Trusted: reference differentiator, UF abstraction, np proxy substitutions (listed in evidence). Programs beyond the bound are "
+    "covered only by the paper argument (per-op VJP from C02 + traversal correctness). Tie regions of maximum/max are not explored here.",
+    "exhaustive program enumeration + symbolic execution of real code + SMT equivalence per program", "DESIGN §3 C01")
